@@ -91,10 +91,12 @@ def func_source(fields, opt_expr, positional=False):
             params.append(f"{f.name}: int = {fd.plain_default}")
         else:
             params.append(f"{f.name}: int")
-    # required parameters first (Python syntax): plain required ones have no default expression
+    # required parameters first (Python syntax): plain required ones have no default expression; then the ones that are
+    # required through their Field (utype refuses a required parameter after an optional one in the positional form)
     req = [p for p in params if "=" not in p]
-    opt = [p for p in params if "=" in p]
-    order = req + opt
+    req_f = [p for p, f in zip(params, fields) if "=" in p and f.fd.required is True]
+    opt = [p for p, f in zip(params, fields) if "=" in p and f.fd.required is not True]
+    order = req + req_f + opt
     star = "" if positional else "*, "
     return ("def make(opts):\n"
             f"    @utype.parse(options=opts)\n"
